@@ -596,8 +596,16 @@ def expand_macros(text, macros, hits, depth=0, context=None):
                 e = k + 1
             if getattr(md, 'fn_params', None):
                 call_args = []
-                for (pn, kind), a in zip(md.fn_params, args):
+                for (pn, kind, ty_), a in zip(md.fn_params, args):
                     a1 = ' '.join(a.split())
+                    if kind == 'alias':
+                        # the argument must be the aliased place of another argument, e.g. `self.buffer`
+                        base, place = ty_.split('.', 1)
+                        bi = [q[0] for q in md.fn_params].index(base)
+                        expect = ' '.join(args[bi].split()) + '.' + place
+                        if a1.replace(' ', '') != expect.replace(' ', ''):
+                            raise CutError('macro %s: argument %r is not the aliased place %r' % (name, a1, expect))
+                        continue
                     if kind == 'mut':
                         if re.match(r'^[A-Za-z_][A-Za-z0-9_]*$', a1) and re.search(r'\b' + a1 + r'\s*:\s*&\s*mut\b', ctx):
                             call_args.append('&mut *' + a1)
@@ -634,17 +642,24 @@ def macro_as_fn(md, macros, fn_params, may_return, generics, ret_ty):
     `(p)` for by-value ones; `return PrinterLogMessageResult::Err(x)` -> `return Err(x)`; falls through to Ok(())."""
     hits = {}
     body = md.body
+    def pname(n):
+        return 'self_' if n == 'self' else n
     for (pn, frag), (fpn, kind, ty) in zip(md.params, fn_params):
-        rep = '(*%s)' % pn if kind in ('mut', 'ref') else '(%s)' % pn
+        if kind == 'alias':
+            base, place = ty.split('.', 1)
+            rep = '((*%s).%s)' % (pname(base), place)
+        else:
+            rep = '(*%s)' % pname(pn) if kind in ('mut', 'ref') else '(%s)' % pname(pn)
         body = re.sub(r'\$' + pn + r'\b', lambda _m, rep=rep: rep, body)
     if '$' in body:
         raise CutError('macro %s: unexpanded metavariable remains' % md.name)
-    sig_ctx = ', '.join('%s: %s' % (pn, ('&mut ' if kind == 'mut' else '&' if kind == 'ref' else '') + ty) for pn, kind, ty in fn_params)
+    fn_params = [(pname(pn), kind, ty) for pn, kind, ty in fn_params]
+    sig_ctx = ', '.join('%s: %s' % (pn, ('&mut ' if kind == 'mut' else '&' if kind == 'ref' else '') + ty) for pn, kind, ty in fn_params if kind != 'alias')
     body, h2 = apply_rules(body, macros={k: v for k, v in macros.items() if k != md.name}, context=sig_ctx)
     hits.update(h2)
     if may_return:
         body = body.replace('PrinterLogMessageResult::Err(', 'core::result::Result::Err(')
-    params = ', '.join('%s: %s%s' % (pn, '&mut ' if kind == 'mut' else '&' if kind == 'ref' else '', ty) for pn, kind, ty in fn_params)
+    params = ', '.join('%s: %s%s' % (pn, '&mut ' if kind == 'mut' else '&' if kind == 'ref' else '', ty) for pn, kind, ty in fn_params if kind != 'alias')
     g = '<%s>' % generics if generics else ''
     return g, params, body, hits
 
